@@ -42,6 +42,7 @@ func (fg *FnGen) baseEnv(fr *Frame, st *State) *Env {
 	if fg.initState != nil {
 		env.old = &Env{fg: fg, vars: env.vars, st: fg.initState}
 	}
+	fg.bindGhosts(env, st)
 	return env
 }
 
@@ -848,7 +849,7 @@ func (e *Env) callGo(ce *CE, name string, fn *CE, args []*CE) (CVal, bool, error
 	}
 	// run with obligations and assumptions discarded? assumptions (definitions) are needed; obligations are dropped.
 	savedObls := len(fg.obls)
-	fr := fg.newFrame(fg.fn, 1, fmt.Sprintf("spec%d|", fg.fresh))
+	fr := fg.newFrame(fg.fn, 1, fmt.Sprintf("spec%d~", fg.fresh))
 	fg.fresh++
 	var res []*Term
 	if ct := fg.g.contracts[target.String()]; ct != nil {
